@@ -304,7 +304,7 @@ inline bool problemNontrivial(const Problem &p)
 
 inline const std::vector<int> &nListQuick()
 {
-    static const std::vector<int> v{1, 2, 3, 4, 5, 6, 7, 8, 9, 10};
+    static const std::vector<int> v{1, 2, 3, 4, 5, 6, 7, 8, 9, 10, 33};
     return v;
 }
 inline const std::vector<int> &nListThorough()
